@@ -213,7 +213,7 @@ func runC17(c *Check) {
 				c.Bad("C17-R2", "lazy ⟂ notification-sets-flag", fn, "", "the pending flag is not set in the notification case", nil)
 			}
 			if len(clears) == 0 {
-				c.OK("C17-R2", "lazy ⟂ flag-cleared-only-after-producing", fn, p.Pos(lazy.Pos()), "the flag is never cleared", true)
+				c.Bad("C17-R2", "lazy ⟂ flag-cleared-only-after-producing", fn, p.Pos(lazy.Pos()), "the loop never clears the pending flag itself: once a notification has set it, every block-timer tick produces a block — an idle chain runs at one block per block interval instead of one per idle interval (a clear left to a callee under a condition of its own, such as \"the batch was not empty\", does not clear it when the notified transactions went into an earlier block)", nil)
 			} else {
 				path := g.PrecedeSince(nodeSet(sel), isProduce, nodeSet(clears))
 				c.Decide("C17-R2", "lazy ⟂ flag-cleared-only-after-producing", fn, p.InstrPos(clears[0].In), "the pending flag is cleared only after the production function ran in the same iteration",
@@ -232,6 +232,13 @@ func runC17(c *Check) {
 				t, pol = normFact(t, pol)
 				return pol && t.Op == "field" && t.Name == "txsAvailable"
 			}))
+			if len(flagSet) > 0 && len(clears) > 0 {
+				// … and the block it triggered takes the flag down again, on every path back to the
+				// wait: a flag left standing turns every block-timer tick into a block
+				c.Decide("C17-R2", "lazy ⟂ flag-cleared-after-its-block", fn, p.InstrPos(flagSet[0].In), "from the flag-set edge of the block-timer case every path back to the select clears the flag",
+					"with the flag set the block-timer case can return to the wait with the flag still set (it is cleared only under some condition): every later tick produces another — empty — block, and a lazy chain runs at the block interval instead of the idle interval", g,
+					g.PathAvoiding(flagSet, nodeSet(sel), nodeSet(clears)))
+			}
 			if len(blockTimerEdges) > 0 && len(flagSet) > 0 {
 				path := g.PathAvoiding(flagSet, orPred(nodeSet(sel), g.AnyExit()), isProduce)
 				c.Decide("C17-R2", "lazy ⟂ flag-set→produce-at-block-timer", fn, p.InstrPos(flagSet[0].In), "with the flag set the block-timer case always calls the production function",
